@@ -20,11 +20,30 @@ namespace Mv.Text
 
 variable {U : Uni} {keep : Option (List Char)} {trail : Bool} {input out : List Char} {limit : Nat} {tr : Bool}
 
+/-- The literal mirror of the truncation loop (`out`/`consumed`/`keep`, `String::truncate`) never
+    panics and equals the cluster-level formulation the theorems below are stated for. -/
+theorem C33_literal_loop (keep : Option (List Char)) (trail : Bool) (U : Uni) (input : List Char) (limit : Nat) :
+    normalizeLit keep trail U input limit = some (normalizeCfg keep trail U input limit) :=
+  normalizeLit_eq keep trail U input limit
+
 /-- The theorems about `normalize` apply to the working tree: the pipeline shape read from
     src/text.rs (tools/gen/C33.py) is the repaired one. Fails to elaborate on the unrepaired code. -/
-theorem C33_source_is_repaired : normalizeSrc = normalize := by
+theorem C33_source_is_repaired (U : Uni) (input : List Char) (limit : Nat) :
+    normalizeSrc U input limit = some (normalize U input limit) := by
   unfold normalizeSrc normalize
-  rfl
+  exact normalizeLit_eq _ _ U input limit
+
+/-- `None` is returned exactly when nothing is left after cleaning and trimming -/
+theorem C33_none_iff : normalizeCfg keep trail U input limit = none ↔ cleanedText keep U input = [] := by
+  unfold normalizeCfg
+  simp only
+  constructor
+  · intro h
+    by_contra hne
+    rw [if_neg (by simpa using hne)] at h
+    exact fallback_ne_none _ _ _ h
+  · intro h
+    simp [h]
 
 /-- **ends on a grapheme boundary**: the output is the concatenation of the first `k ≥ 1` grapheme
     clusters of the cleaned text, hence a prefix of it, and all of it when not truncated. -/
@@ -76,6 +95,23 @@ theorem C33_truncated_iff (S : SegLaws U) (h : normalizeCfg keep trail U input l
     tr = false ↔ bytes (cleanedText keep U input) ≤ max limit 1 := by
   obtain ⟨_, k, _, _, _, h4, _⟩ := normalize_spec S h
   rwa [MIN_LIMIT_eq] at h4
+
+/-- **the cut is tight**: for a truncated result the clusters are `a ++ z ++ g :: rest` where
+    `a ++ z` is the longest prefix that fits the limit, `g` is the first cluster that does not,
+    `z` are the trailing clusters ending in whitespace that the repair cuts (`z = []` in the code
+    as found), `a` does not end in such a cluster, and the output is `a` — or the first cluster
+    alone when `a` is empty (the never-empty fallback). -/
+theorem C33_cut_tight (S : SegLaws U) (h : normalizeCfg keep trail U input limit = some (out, true)) :
+    ∃ (a z : List (List Char)) (g : List Char) (rest : List (List Char)),
+      U.graphemes (cleanedText keep U input) = a ++ z ++ g :: rest ∧
+      bytes (a ++ z).flatten ≤ max limit 1 ∧
+      max limit 1 < bytes (a ++ z).flatten + bytes g ∧
+      (∀ x ∈ z, endsWs U x = true) ∧ (trail = false → z = []) ∧
+      (∀ x, a.getLast? = some x → trail = true → endsWs U x = false) ∧
+      ((a ≠ [] ∧ out = a.flatten) ∨
+        (a = [] ∧ ∃ r', U.graphemes (cleanedText keep U input) = out :: r')) := by
+  have := normalize_cut_spec S h
+  rwa [MIN_LIMIT_eq] at this
 
 /-- **no control characters other than newline** -/
 theorem C33_no_control (L : CharLaws U) (S : SegLaws U)
